@@ -29,6 +29,7 @@ struct Ctx {
   uint64_t childOut, childErr, childIn, parentOut, parentErr, parentIn; bool outEof, errEof, childSawEof, childDone; int exitCode; bool stdinClosed;
   std::string expProgram; std::vector<std::string> expArgv, expEnv; bool expParentEnv;
   bool parentDone;
+  Process* proc2; int pid2; unsigned streams2; uint64_t c2Out, c2Err, p2Out, p2Err; int watermark;
 };
 static Ctx C;
 static String S(const std::string& s) { return String(s.c_str(), s.size()); }
@@ -36,6 +37,10 @@ static String S(const std::string& s) { return String(s.c_str(), s.size()); }
 // ------------------------------------------------------------------ scripted child program
 static void childProgram(simproc::Child* c) {
   const RunSpec& s = *C.spec; unsigned char buf[4096];
+  if (c->pid == C.pid2 || (C.pid && c->pid != C.pid)) {   // the second, simple process: 100 bytes on each redirected output, exit code 5
+    for (int fd = 1; fd <= 2; ++fd) if (c->table.m.count(fd)) { uint64_t& cnt = fd == 1 ? C.c2Out : C.c2Err; for (int q = 0; q < 100; ++q) buf[q] = codeByte(10 + fd, cnt + q); ssize_t r = write(fd, buf, 100); if (r > 0) { NoPreempt np; cnt += r; } }
+    c->exitCode = 5; return;
+  }
   bool hasOut = c->table.m.count(1) != 0, hasErr = c->table.m.count(2) != 0, hasIn = c->table.m.count(0) != 0;
   for (size_t i = 0; i < s.plan.size() && !simproc::childKilled(c); ++i) {
     const Op& op = s.plan[i]; if (op.task != 1) continue;
@@ -89,7 +94,7 @@ static void checkImage(simproc::Child* c) {
   if (e && fd[2].first != simnet::FK_PIPE_W) fail("C20/stream_redirection", "child's stderr is not the write end of a pipe");
   if (i && fd[0].first != simnet::FK_PIPE_R) fail("C20/stream_redirection", "child's stdin is not the read end of a pipe");
   if (o && e && fd[1].second == fd[2].second) fail("C20/stream_redirection", "child's stdout and stderr are the same pipe");
-  for (auto& kv : fd) if (kv.first > 2) fail("C20/pipe_end_leaked_into_child", "descriptor %d (a pipe end) is still open in the child at exec", kv.first);
+  for (auto& kv : fd) if (kv.first > 2 && kv.second.second >= C.watermark) fail("C20/pipe_end_leaked_into_child", "descriptor %d (an end of this process' own pipes) is still open in the child at exec", kv.first);
 }
 
 static void peerCheckParentRead(int stream, const unsigned char* b, ssize_t r) {
@@ -100,7 +105,7 @@ static void peerCheckParentRead(int stream, const unsigned char* b, ssize_t r) {
 
 // ------------------------------------------------------------------ Process::Arguments (pure clause, rides along)
 static const Process::Option optTable[] = { {'a', "alpha", Process::optionFlag}, {'b', "bravo", Process::optionFlag}, {'o', "out", Process::argumentFlag}, {'v', 0, Process::optionFlag}, {1000, "longonly", Process::argumentFlag} };
-static const char* argWords[] = {"-a", "-b", "-o", "-ab", "-abo", "-ofile", "--alpha", "--out", "--out=v", "--", "-", "x", "-z", "--zeta", "-aofile", "-bz", "--longonly=7", "--longonly", "file", "-v", "--zeta=1", "-ao"};
+static const char* argWords[] = {"-a", "-b", "-o", "-ab", "-abo", "-ofile", "--alpha", "--out", "--out=v", "--", "-", "x", "-z", "--zeta", "-aofile", "-bz", "--longonly=7", "--longonly", "file", "-v", "--zeta=1", "-ao", "--out=", "--longonly="};
 struct Parsed { int ch; std::string arg; bool operator==(const Parsed& o) const { return ch == o.ch && arg == o.arg; } };
 static std::vector<Parsed> refParse(const std::vector<std::string>& av) {   // av[0] is the program name
   std::vector<Parsed> out; bool skip = false;
@@ -127,7 +132,7 @@ static std::vector<Parsed> refParse(const std::vector<std::string>& av) {   // a
   return out;
 }
 static void argumentsOp(uint64_t seed) {
-  std::vector<std::string> av; { Host h; av.push_back("prog"); int n = (int)(seed % 6); seed /= 6; for (int i = 0; i < n; ++i) { av.push_back(argWords[seed % 22]); seed /= 22; } }
+  std::vector<std::string> av; { Host h; av.push_back("prog"); int n = (int)(seed % 6); seed /= 6; for (int i = 0; i < n; ++i) { av.push_back(argWords[seed % 24]); seed /= 24; } }
   // every argv[i] lives in an exactly sized arena block: reading past a terminator is caught by the shadow
   int argc = (int)av.size(); char** argv = new char*[argc];
   for (int i = 0; i < argc; ++i) { argv[i] = new char[av[i].size() + 1]; memcpy(argv[i], av[i].c_str(), av[i].size() + 1); }
@@ -140,6 +145,7 @@ static void argumentsOp(uint64_t seed) {
 
 // ------------------------------------------------------------------ parent
 static void doOpen(const Op& op) {
+  C.watermark = simnet::fileIdWatermark();
   int kind = (int)(op.a[0] % 6); C.streams = (unsigned)(op.a[1] % 8); int envN = (int)(op.a[2] % 4); uint64_t seed = (uint64_t)op.a[3];
   Map<String, String> env; { Host h; C.expEnv.clear(); }
   static const char* ek[] = {"ALPHA", "BETA", "PATHX"}; static const char* ev[] = {"1", "two words", "/x:/y"};
@@ -171,6 +177,14 @@ static void drainAndJoin() {
   // the well-behaved parent: close stdin, read every redirected output up to end-of-file, then join
   unsigned char buf[4096];
   if (C.streams & Process::stdinStream) { C.proc->close(Process::stdinStream); C.stdinClosed = true; }
+  if (simdrv::knob(*C.spec, "second_process", 0)) {   // a second Process object is opened while the first is still running (descriptor numbers get re-used)
+    C.proc2 = new Process; C.streams2 = 1 + (unsigned)(simdrv::knob(*C.spec, "second_process", 0) % 3); C.watermark = simnet::fileIdWatermark();
+    unsigned keep = C.streams; std::string ep = C.expProgram; std::vector<std::string> ea = C.expArgv, ee = C.expEnv; bool epe = C.expParentEnv;
+    { Host h; C.expProgram = "prog2"; C.expArgv = {"prog2", "x"}; C.expEnv.clear(); C.expParentEnv = true; } C.streams = C.streams2;
+    if (!C.proc2->open(String("prog2 x"), C.streams2)) fail("C20/open_failed", "second Process::open failed");
+    C.pid2 = (int)C.proc2->getProcessId(); simproc::Child* c2 = simproc::findChild(C.pid2); if (c2 && c2->execed) checkImage(c2);
+    { Host h; C.expProgram = ep; C.expArgv = ea; C.expEnv = ee; C.expParentEnv = epe; } C.streams = keep; probe("second_process");
+  }
   unsigned open = C.streams & (Process::stdoutStream | Process::stderrStream);
   if (C.outEof) open &= ~Process::stdoutStream; if (C.errEof) open &= ~Process::stderrStream;
   bool useSelect = simdrv::knob(*C.spec, "drain_with_select", 0) != 0;
@@ -193,6 +207,16 @@ static void drainAndJoin() {
     if ((C.streams & Process::stdoutStream) && C.outEof && C.parentOut != C.childOut) fail("C20/output_lost", "parent read %llu bytes of stdout up to end-of-file, the child wrote %llu", (unsigned long long)C.parentOut, (unsigned long long)C.childOut);
     if ((C.streams & Process::stderrStream) && C.errEof && C.parentErr != C.childErr) fail("C20/output_lost", "parent read %llu bytes of stderr up to end-of-file, the child wrote %llu", (unsigned long long)C.parentErr, (unsigned long long)C.childErr);
     if (C.childSawEof && C.childIn != C.parentIn) fail("C20/input_lost", "child read %llu bytes of stdin up to end-of-file, the parent wrote %llu", (unsigned long long)C.childIn, (unsigned long long)C.parentIn);
+  }
+  if (C.proc2) {
+    unsigned o2 = C.streams2;
+    while (o2) { uint st = o2; ssize_t r = C.proc2->read(buf, sizeof buf, st); if (r < 0) fail("C20/read_failed", "read on the second process failed although its streams are open (streams %u)", o2);
+      if (r == 0) { o2 &= ~st; C.proc2->close(st); continue; }
+      NoPreempt np; uint64_t& got = st == Process::stdoutStream ? C.p2Out : C.p2Err; for (ssize_t q = 0; q < r; ++q) if (buf[q] != codeByte(st == Process::stdoutStream ? 11 : 12, got + q)) fail("C20/output_bytes_differ", "second process: wrong byte read"); got += r; }
+    uint32 code2 = 99; if (!C.proc2->join(code2)) fail("C20/join_failed", "join() of the second process failed");
+    simproc::Child* c2 = simproc::findChild(C.pid2);
+    if (c2 && c2->execed) { if (code2 != 5) fail("C20/exit_code", "second process: join() returned %u, the child exited with 5", code2); NoPreempt np; if (C.p2Out != C.c2Out || C.p2Err != C.c2Err) fail("C20/output_lost", "second process: read %llu/%llu bytes, the child wrote %llu/%llu", (unsigned long long)C.p2Out, (unsigned long long)C.p2Err, (unsigned long long)C.c2Out, (unsigned long long)C.c2Err); }
+    delete C.proc2; C.proc2 = 0;
   }
   if (simnet::openFdCount() != 0) fail("C20/descriptor_left_open", "%d pipe descriptors still open in the parent after join/kill", simnet::openFdCount());
 }
@@ -235,7 +259,7 @@ static void generate(RunSpec& s, int tier) {
   int mode = r(4) == 0 ? 1 : 0; s.knobs["mode"] = mode;
   if (mode == 1) { int n = 1 + (int)r(12); for (int i = 0; i < n; ++i) { Op o; o.task = 0; o.code = A_PARSE; o.a[0] = (int64_t)r(1u << 30); o.a[1] = (int64_t)r(1u << 30); o.a[2] = o.a[3] = 0; s.plan.push_back(o); } return; }
   static const int caps[] = {1, 16, 512, 4096, 65536}; s.knobs["pipe_cap"] = caps[r(5)]; s.knobs["exit_code"] = r(4) == 0 ? r(256) : r(3); s.knobs["drain_with_select"] = r(2); s.knobs["read_chunk"] = r(4096); s.knobs["kill_instead_of_join"] = r(10) == 0;
-  static const int pct[] = {0, 0, 10, 30}; s.knobs["pipe_fault_pct"] = pct[r(4)]; s.knobs["eintr_pct"] = r(3) == 0 ? 5 : 0; s.knobs["exec_fail_pct"] = r(8) == 0 ? 100 : 0;
+  static const int pct[] = {0, 0, 10, 30}; s.knobs["pipe_fault_pct"] = pct[r(4)]; s.knobs["eintr_pct"] = r(3) == 0 ? 5 : 0; s.knobs["exec_fail_pct"] = r(8) == 0 ? 100 : 0; s.knobs["second_process"] = r(3) == 0 ? 1 + r(3) : 0;
   static const int synck[] = {0, 1, 2, 4}; s.knobs["sync_switch_log2"] = synck[r(4)]; static const int memk[] = {255, 255, 8, 5}; s.knobs["mem_switch_log2"] = memk[r(4)];
   { Op o; o.task = 0; o.code = P_OPEN; o.a[0] = (int64_t)r(6); o.a[1] = (int64_t)r(8); o.a[2] = (int64_t)r(4); o.a[3] = (int64_t)r(1u << 30); s.plan.push_back(o); }
   int np = (int)r(8);
@@ -250,7 +274,7 @@ static Result execute(const RunSpec& s, bool keepLog) {
   cfg.mem_switch_log2 = (int)simdrv::knob(s, "mem_switch_log2", 255); cfg.sync_switch_log2 = (int)simdrv::knob(s, "sync_switch_log2", 2);
   cfg.rate[K_PIPE] = simdrv::knob(s, "pipe_fault_pct", 0) / 100.0; cfg.rate[K_EINTR] = simdrv::knob(s, "eintr_pct", 0) / 100.0; cfg.rate[K_CHILD] = simdrv::knob(s, "exec_fail_pct", 0) / 100.0;
   cfg.step_budget = 1500000; cfg.tail_budget_min = 300000; cfg.tail_factor = 1; cfg.keep_log = keepLog;
-  C.spec = &s; C.proc = 0; C.streams = 0; C.opened = false; C.pid = 0; C.childOut = C.childErr = C.childIn = C.parentOut = C.parentErr = C.parentIn = 0; C.outEof = C.errEof = C.childSawEof = C.childDone = false; C.exitCode = 0; C.stdinClosed = false; C.parentDone = false;
+  C.spec = &s; C.proc = 0; C.streams = 0; C.opened = false; C.pid = 0; C.childOut = C.childErr = C.childIn = C.parentOut = C.parentErr = C.parentIn = 0; C.outEof = C.errEof = C.childSawEof = C.childDone = false; C.exitCode = 0; C.stdinClosed = false; C.parentDone = false; C.proc2 = 0; C.pid2 = 0; C.streams2 = 0; C.c2Out = C.c2Err = C.p2Out = C.p2Err = 0; C.watermark = 0;
   C.expArgv.clear(); C.expEnv.clear(); C.expProgram.clear(); C.expParentEnv = true;
   Hooks h; h.main_fn = mainTask; h.quiescence = quiescence; h.finalize = finalize;
   Result r = run(s, cfg, h);
